@@ -35,20 +35,34 @@ ok = ran["demo_on_original"]["exit"] == 0 and ran["demo_with_change"]["exit"] !=
 print(json.dumps(ran, indent=1))
 if not ok:
     print("NOT CONFIRMED"); sys.exit(1)
-# run the checks against /repo with the change applied
+# run the checks with the change applied: to /repo itself (reverted afterwards), or — KM_PRIVATE=1 — to
+# a private worktree of /repo with a private copy of /verif (VERIF_REPO), leaving /repo and /verif alone
 res = {}
-assert subprocess.run("git -C /repo status --porcelain -- src", shell=True, capture_output=True, text=True).stdout.strip() == ""
-subprocess.run(f"git -C /repo apply {patch}", shell=True, check=True)
-evsave = subprocess.run("mktemp -d", shell=True, capture_output=True, text=True).stdout.strip()
-subprocess.run(f"cp -a /verif/evidence/. {evsave}/", shell=True, check=True)  # evidence written under a seeded change must not survive
-try:
-    for c in checks:
-        p = subprocess.run(f"cd /verif && ./check {c} --tier quick", shell=True, capture_output=True, text=True, timeout=3000)
-        lines = (p.stdout + p.stderr).strip().splitlines()
-        res[c] = {"exit": p.returncode, "violation_lines": [l for l in lines if l.startswith("VIOLATION")][:3], "summary": lines[-1:] }
-finally:
-    subprocess.run("git -C /repo checkout -- .", shell=True, check=True)
-    subprocess.run(f"cp -a {evsave}/. /verif/evidence/ && rm -rf {evsave}", shell=True, check=True)
+if os.environ.get("KM_PRIVATE"):
+    rc, vs = "/tmp/rck", "/tmp/vsk/verif"
+    subprocess.run(f"git -C /repo worktree remove --force {rc} 2>/dev/null; git -C /repo worktree add --detach {rc} HEAD >/dev/null 2>&1", shell=True)
+    subprocess.run(f"mkdir -p /tmp/vsk && rsync -a --delete /verif/ {vs}/", shell=True, check=True)
+    subprocess.run(f"git -C {rc} apply {patch}", shell=True, check=True)
+    try:
+        for c in checks:
+            p = subprocess.run(f"cd {vs} && VERIF_REPO={rc} ./check {c} --tier quick", shell=True, capture_output=True, text=True, timeout=3000)
+            lines = (p.stdout + p.stderr).strip().splitlines()
+            res[c] = {"exit": p.returncode, "violation_lines": [l for l in lines if l.startswith("VIOLATION")][:3], "summary": lines[-1:] }
+    finally:
+        subprocess.run(f"git -C /repo worktree remove --force {rc}", shell=True)
+else:
+    assert subprocess.run("git -C /repo status --porcelain -- src", shell=True, capture_output=True, text=True).stdout.strip() == ""
+    subprocess.run(f"git -C /repo apply {patch}", shell=True, check=True)
+    evsave = subprocess.run("mktemp -d", shell=True, capture_output=True, text=True).stdout.strip()
+    subprocess.run(f"cp -a /verif/evidence/. {evsave}/", shell=True, check=True)  # evidence written under a seeded change must not survive
+    try:
+        for c in checks:
+            p = subprocess.run(f"cd /verif && ./check {c} --tier quick", shell=True, capture_output=True, text=True, timeout=3000)
+            lines = (p.stdout + p.stderr).strip().splitlines()
+            res[c] = {"exit": p.returncode, "violation_lines": [l for l in lines if l.startswith("VIOLATION")][:3], "summary": lines[-1:] }
+    finally:
+        subprocess.run("git -C /repo checkout -- .", shell=True, check=True)
+        subprocess.run(f"cp -a {evsave}/. /verif/evidence/ && rm -rf {evsave}", shell=True, check=True)
 print(json.dumps(res, indent=1))
 d = f"/verif/seeded/{prop}-{n}"
 os.makedirs(d, exist_ok=True)
